@@ -751,7 +751,7 @@ def _configs(tier, seed):
 
 
 def tasks(tier, seed):
-    out = L.grouped(_configs(tier, seed), 15 if tier == "quick" else 40)
+    out = L.grouped(_configs(tier, seed), 15 if tier == "quick" else 30)
     Ts = list(range(1, 8)) if tier == "quick" else list(range(1, 10))
     out["thin/enumeration"] = Task(_thin_task(Ts, (0, 1, 2, 3, 4, 5, 7)))
     cases = _run_cases(tier)
